@@ -165,3 +165,32 @@ def check_C05(res, replay):
                     "alternating, NaN energy, zero gradient, stateful answers, budgets 0 and 1; the model fed the answers must emit the identical request "
                     "fingerprints and final coordinates; the property's trace predicates are evaluated on each recording",
                     extra_audit=["OptRs.Model.SD"])
+
+
+# ---------------------------------------------------------------------------------------------------- C13 / C14
+
+XYZ_AUDIT = ["OptRs.Model.Xyz"]
+
+
+def check_C13(res, replay):
+    res.trusted = TB_COMMON + ["hand model OptRs.Model.Xyz of XYZFile::write/read", "driver's exact {:.6} formatter and f64::from_str (integer arithmetic), corresponded byte for byte",
+                               "axioms audited: subset of {propext, Classical.choice, Quot.sound}"]
+    res.assumptions = ["std contracts used by the theorems: a formatted number is non-empty and has no white space; parse(format(v)) is the nearest double of the printed decimal",
+                       "end-to-end numeric clause checked as |read - written| <= 5e-7 + 1 ulp(value): the printed decimal is within 5e-7 (theorem round6_bound, ties included) and the parse rounds it to the nearest double"]
+    return standard(res, ["tables"], ["OptRs.Props.C13"], [("xyz-write", [], "xyz-write")], "proof",
+                    "lake build OptRs.Props.C13 + #print axioms audit",
+                    "molecules over all 118 symbols with coordinates from every decade 1e-9..1e15, both signs, values <= -100 and >= 1000, dyadic sixth-decimal ties, "
+                    "values that round up into a new digit, +-0; the file bytes and the read-back result are compared with the model; the property itself is "
+                    "evaluated on the real file text and round trip", extra_audit=XYZ_AUDIT)
+
+
+def check_C14(res, replay):
+    res.trusted = TB_COMMON + ["hand model OptRs.Model.Xyz.readLines of XYZFile::read / append_atom_on_line", "driver's f64::from_str grammar + exact rounding, corresponded bit for bit",
+                               "axioms audited: subset of {propext, Classical.choice, Quot.sound}"]
+    res.assumptions = ["BufRead::lines, split_whitespace (Unicode White_Space), str::parse are modelled by their documented behaviour and corresponded, including invalid UTF-8 lines",
+                       "the .xyz suffix check (a panic before any read) is covered under C15"]
+    return standard(res, ["tables"], ["OptRs.Props.C14"], [("xyz-read", [], "xyz-read")], "proof",
+                    "lake build OptRs.Props.C14 + #print axioms audit",
+                    "half well-formed files (all 118 symbols; spaces, tabs, blank lines, CRLF, exponent/sign/bare-point spellings, trailing columns), half corruptions of them "
+                    "(dropped/duplicated/swapped fields, non-numeric fields, unknown symbols, extra or missing header lines, truncated body, invalid UTF-8 bytes) plus a fixed corpus of "
+                    "edge files; outcome canonicalised as err | ok [(Z, x bits, y bits, z bits)]", extra_audit=XYZ_AUDIT)
